@@ -392,7 +392,10 @@ class MacroProgram(ElementProgram):
                 pass
             else:
                 key, value = tal.parse_substitution(clause)
-                translate = ns.get((I18N, 'translate')) == ''
+                # Either true (the value is the message id) or the
+                # explicit message id (the value is the default).
+                translate = ns.get((I18N, 'translate'))
+                translate = translate == '' or translate
                 inner = self._make_content_node(
                     value, inner, key, translate
                 )
